@@ -81,3 +81,13 @@ Proof.
   unfold m_snapshot, locked. rewrite arun_with_lock, arun_act. unfold sem at 1. cbn beta iota.
   unfold CR in R. rewrite (sr_store _ _ _ R), ES. reflexivity.
 Qed.
+
+(* copy.copy(c) = LRI.__copy__ = copy() under the (re-entrant) lock *)
+Lemma copycopy_link tb c s m p :
+  Lk p m -> CR s p -> length (M2.ring m) <= cf_max c ->
+  run_op tb c s CopyCopy = (s, RItems (M2.ring m)).
+Proof.
+  intros LK R CAP. pose proof (copy_link tb c s m p LK R CAP) as CL.
+  unfold run_op, compile_cfg, compile in *. rewrite arun_ret_of in *.
+  unfold m_copy2, locked. rewrite arun_with_lock. exact CL.
+Qed.
